@@ -71,7 +71,11 @@ var concActions = map[string]concAction{
 	"unsubA": func(e *concEnv) {
 		e.A.Send(ref.Packet{Type: ref.UNSUBSCRIBE, PacketID: 4, Filters: []ref.Filter{{Filter: "x"}}})
 	},
-	"discA":  func(e *concEnv) { e.A.Send(ref.Packet{Type: ref.DISCONNECT}) },
+	"discA": func(e *concEnv) { e.A.Send(ref.Packet{Type: ref.DISCONNECT}) },
+	"discAx": func(e *concEnv) {
+		e.A.Send(ref.Packet{Type: ref.DISCONNECT, Props: ref.Props{{ID: ref.PSessionExpiry, Num: 5}}})
+	},
+	"discAw": func(e *concEnv) { e.A.Send(ref.Packet{Type: ref.DISCONNECT, ReasonCode: 4, Props: ref.Props{}}) },
 	"dropA":  func(e *concEnv) { e.A.C.PeerClose() },
 	"dropB":  func(e *concEnv) { e.B.C.PeerClose() },
 	"takeA":  func(e *concEnv) { e.dial(v5connect("a", false, 2, 60)) },
@@ -97,11 +101,21 @@ var concActions = map[string]concAction{
 // concSetup builds the standard base: listener, a (v5, persistent, Receive Maximum 2,
 // subscribed to x at QoS 1) holding one unacknowledged message m1, b (v4).
 func concSetup(prefix []int, cfg world.Config) *concEnv {
+	return concSetupWill(prefix, cfg, false)
+}
+
+// concSetupWill: as concSetup; with will=true client a carries a will (topic w, delay 1 s).
+func concSetupWill(prefix []int, cfg world.Config, will bool) *concEnv {
 	w := world.New(prefix, cfg)
 	e := &concEnv{W: w}
 	w.Serve()
 	w.Run()
-	e.A = e.dial(v5connect("a", false, 2, 60))
+	ca := v5connect("a", false, 2, 60)
+	if will {
+		ca.WillFlag, ca.WillTopic, ca.WillPayload, ca.WillQos = true, "w", []byte("will-a"), 1
+		ca.WillProps = ref.Props{{ID: ref.PWillDelay, Num: 1}}
+	}
+	e.A = e.dial(ca)
 	w.Run()
 	e.B = e.dial(world.ConnectPacket("b", 4, true))
 	w.Run()
